@@ -214,21 +214,77 @@ def rebuilt(ctx, inv, td, f, key, where):
     # readers: functions with a place projection of this field used as an operand / borrowed
     readers = field_readers(prog, inv, td, f['name'])
     bad = []
+    nread = 0
     for b, blocks in readers.items():
-        if b.fid in writers or inv.is_ctor_like(b) or b.test or re.search(r'derive\(|attr\(', b.fid):
+        if inv.is_ctor_like(b) or b.test or re.search(r'derive\(|attr\(', b.fid):
             continue
+        nread += 1
         cfg = inv.cfg(b)
-        # guard: a call of is_empty / is_none / is_some on this field in a block that dominates the read and whose one branch reaches a writer
-        guards = []
-        for bn, t in cfg.call_sites(lambda c: re.search(r'::(is_empty|is_none|is_some)$', c.split('(')[0]) is not None):
-            guards.append(bn)
-        wcalls = [bn for bn, t in cfg.call_sites() if any(x.fid in writers or x.fid in inv.reachable_to(writers) for x in prog.resolve(t.callee))]
+        guards = guard_blocks(prog, inv, b, td, f['name'])
+        wblocks = [bn for bb_, bn, sp, how in W if bb_ is b and how.split(':')[0] in ('assign', 'opassign')]
+        wcalls = [bn for bn, t in cfg.call_sites() if any(x.fid in writers for x in prog.resolve(t.callee))]
         for rb in blocks:
-            ok = any(cfg.dominates(g, rb) for g in guards) and bool(wcalls)
-            if not ok and rb not in wcalls:
+            if rb in guards:
+                continue
+            ok = any(cfg.dominates(g, rb) for g in guards) and bool(wcalls or wblocks)
+            ok = ok or any(w != rb and cfg.dominates(w, rb) for w in wblocks + wcalls)
+            ok = ok or (rb in wblocks and _write_first(inv, b, rb, td, f['name']))
+            if not ok:
                 bad.append((b.fid, rb))
-    ctx.check(not bad, 'C17-3.skip', key, 'every read is preceded by an emptiness/None test with a rebuilding branch (%d reader functions)' % len(readers),
-              'read without rebuild guard in %s' % bad[:4], where)
+    ctx.check(not bad, 'C17-3.skip', key, 'every read is preceded by an emptiness/None test with a rebuilding branch, or by a store (%d reader functions)' % nread,
+              'the field is excluded from serialisation but read without a rebuild guard in %s' % sorted(set(x[0] for x in bad))[:4], where)
+
+
+def _write_first(inv, b, bn, td, fname):
+    """in block bn the first statement touching the field is a store to it"""
+    for s in b.blocks[bn].stmts:
+        if s.kind != 'assign':
+            continue
+        ch = inv.place_fields(b, s.lhs) if s.lhs.proj else []
+        if ch and ch[-1][0] == td.qual and ch[-1][1] == fname:
+            return True
+        for pl in _places_of_rv(s.rv):
+            for o, fn, _ in inv.place_fields(b, pl):
+                if o == td.qual and fn == fname:
+                    return False
+    return False
+
+
+def _sg(c):
+    from sa.program import strip_generics
+    return strip_generics(c)
+
+
+def guard_blocks(prog, inv, b, td, fname):
+    """blocks that test this field with is_empty / is_none / is_some (the call's argument is a reference to the field)"""
+    out = []
+    refs = {}
+    for bn in b.order:
+        for s in b.blocks[bn].stmts:
+            if s.kind == 'assign' and s.rv[0] == 'ref' and not s.lhs.proj:
+                ch = inv.place_fields(b, s.rv[2])
+                if ch and ch[-1][0] == td.qual and ch[-1][1] == fname:
+                    refs[s.lhs.local] = bn
+    # one level of re-borrow / deref-coercion: _y = Deref::deref(move _x)
+    for bn in b.order:
+        t = b.blocks[bn].term
+        if t.kind == 'call' and re.search(r'as (std::ops::)?Deref(Mut)?>::deref', t.callee) and t.dest is not None and not t.dest.proj:
+            for a in t.args:
+                if a[0] in ('move', 'copy') and not a[1].proj and a[1].local in refs:
+                    refs[t.dest.local] = bn
+    for bn in b.order:
+        for s in b.blocks[bn].stmts:
+            if s.kind == 'assign' and s.rv[0] == 'discr':
+                ch = inv.place_fields(b, s.rv[1])
+                if ch and ch[-1][0] == td.qual and ch[-1][1] == fname:
+                    out.append(bn)           # `match field { Some(..) / None }`
+    for bn in b.order:
+        t = b.blocks[bn].term
+        if t.kind == 'call' and re.search(r'::(is_empty|is_none|is_some)$', _sg(t.callee)):
+            for a in t.args:
+                if a[0] in ('move', 'copy') and not a[1].proj and a[1].local in refs:
+                    out.append(bn)
+    return out
 
 
 def field_readers(prog, inv, td, fname):
